@@ -251,7 +251,7 @@ impl PurlShape for PackageType {
         match self {
             PackageType::Cargo | PackageType::Gem | PackageType::Npm | PackageType::Golang => {},
             PackageType::Maven => {
-                if parts.namespace.is_empty() {
+                if parts.namespace.split('/').all(str::is_empty) {
                     return Err(PackageError::MissingRequiredField(PurlField::Namespace));
                 }
             },
